@@ -220,17 +220,9 @@ def _f(obs, name):
 
 
 def finding_class(req, impl, model, why):
-    """open findings of the map ladders: when uthash_fatal is raised inside HASH_ADD_KEYPTR (table header, bucket array or
-    bucket expansion cannot be allocated), cif_map_set_item / cif_value_clone_table release the new entry although uthash
-    has already linked it; the next use of the map reads freed memory.  Matched only at the fault positions where the
-    pinned model predicts it (rc=U) and only for an AddressSanitizer use-after-free report."""
-    t = req.split()
-    site = {"mapset": "@map.c:cif_map_set_item", "tclone": "@value.c:cif_value_clone_table"}
-    if len(t) > 3 and t[1] in site and impl.startswith("SAN:asan:heap-use-after-free") and impl.endswith(site[t[1]]) \
-            and (model is None or " rc=U " in model + " "):
-        # model is None in the leak sweep of property C16 (no model run there): the failing allocation must then at least
-        # have been made by the function itself (uthash's macros expand there), not by cif_u_strdup or the normaliser
-        return "%s/uthash-fatal/entry-freed-while-linked" % t[1]
+    """no class of this family is an open finding any more (the node leak of cif_loop_get_names_internal, the NULL table of
+    cif_packet_create_norm and the entry released while linked in cif_map_set_item / cif_value_clone_table are repaired in /repo:
+    0850ab1, 07fe35a, 7285a53), so nothing is keyed and every failure is reported as a VIOLATION"""
     return None
 
 
